@@ -14,7 +14,7 @@ PROP = "C09"
 LEVEL = "exploration"
 
 TIERS = {
-    "quick": {"streams": 48, "runs": 500, "codegen_every": 0, "budget_s": None},
+    "quick": {"streams": 64, "runs": 700, "codegen_every": 0, "budget_s": None},
     "thorough": {"streams": 4000, "runs": 500, "codegen_every": 0,
                  "budget_s": 15 * 60},
 }
